@@ -64,7 +64,7 @@ package pipeline
 //@ func (s *ApplyStage) ProcessWithStatus(ctx, item) (processed, err)
 //@   props C42
 //@   attr trackcalls on
-//@   requires nonnil: s != nil && item != nil
+//@   requires nonnil: s != nil && item != nil && s.pending != nil
 //@   requires inv: pendingOK(s)
 //@   ensures inv: pendingOK(s)
 //@   ensures innow: !called(Context.Err) && old(item.sequenceNumber == s.nextSequence) ==> err == nil && len(processed) >= 1 && processed[0] == item
